@@ -4,5 +4,6 @@ CONSTANTS
   MaxReqs = 2
   Media = {"json", "text"}
   Users = {"u1", "u2"}
+  MaxDefects = 1
 INVARIANT Private
 CHECK_DEADLOCK FALSE
